@@ -39,7 +39,7 @@ class Sel:
 
 class C15(Prop):
     id = 'C15'
-    budgets = {'quick': 4000, 'thorough': 40000}
+    budgets = {'quick': 4000, 'thorough': 150000}
     time_limit = {'quick': 40, 'thorough': 600}
     rule = ('histories of 1-4 steps (spinner.run scenario | clear_junk) on one virtual-time reactor and one Spinner: f returns / raises / '
             'returns a Deferred; 0-3 delayed calls scheduled before run() and 0-5 operations inside f (delayed or immediate: fire, fail, '
@@ -56,7 +56,22 @@ class C15(Prop):
         'Spinner(debug=True) (DebugTwisted) is exercised but assumed to be unobservable',
     ]
 
-    manifest = None   # set below once the theorems are proved
+    manifest = {
+        'text': 'Theorems for all histories of runs on one reactor and one Spinner object (any number of delayed calls before/inside f, any '
+                'delays and timeout, stop requests at any instant, any signal handlers, re-entrant calls, clear_junk or not): the discrete-event '
+                'model of Spinner.run on a Clock-like reactor returns/raises exactly the declarative expected result - the function\'s own value or '
+                'exception, TimeoutError, NoResultError - decided by the first of "Deferred fires/fails" and "timeout call" in the reactor\'s call '
+                'order (time, scheduling order), unless a stop is due strictly earlier (ties at the timeout instant proved in both directions); '
+                'StaleJunkError iff junk is uncleared and ReentryError for every nested call, both without any other change; after every run '
+                'the reactor is not running, has no delayed calls or selectables, reactor.stop and SIGINT/SIGTERM/SIGCHLD handlers are restored, '
+                'the junk is exactly the leftovers, the run lasts at most the timeout and its loop ends by a crash. The hand-written model is tied '
+                'to the real Spinner by a differential check on a virtual-time reactor (random histories + exhaustive timing grid) and by the '
+                'extracted _PRESERVED_SIGNALS table.',
+        'note': 'trusted: Lean kernel, the models TTV/Model/Reactor.lean + Spinner.lean, the harness and harness/vreactor.py; the Twisted reactor '
+                'loop, DelayedCall, Deferred chaining and the signal module are modelled, not verified; real-reactor and thread-pool paths are not exercised',
+        'technique': 'Lean 4 invariant proofs over a discrete-event model (sorted call queue, fuelled reactor loop), executable spec shared with a '
+                     'differential correspondence check against the real code on a virtual-time reactor',
+    }
 
     # ----- tie 1: table
     def extract_tables(self, repo):
